@@ -147,19 +147,44 @@ def run(ctx):
             same = same and bool(set(ch) & set(ex_arg) - {None})
         ctx.ob("R2.5", "%s|edge-is-for-the-tested-path" % F.key, same, where=F.span, detail="the recorded edge names the path whose existence was tested")
 
-    # ---- R2.6
+    # ---- R2.6 / R2.9
     from core import FA
     sfa = FA.of(SS)
     ss_static = sba.calls(r"state::File::set_static")
     fn = [i for i in sba.calls(r"state::File::from_name") if any(sfa.dominates(x, i) for x in fd)]
     ok = False
+    ctx.rule("R2.9", "a .do file that is itself a redo target keeps its record: start_self calls set_static on the .do file's record only on the not-generated side of an is_generated() test of that record (F-Z: demoted to a source, the .do file and everything built with it is never rebuilt when its own inputs change)")
+
+    def recv(i):
+        a = op_local(SS.blocks[i]["term"]["args"][0])
+        if a is None:
+            return None
+        pl = sba.resolve_ref(a)
+        return pl["l"] if pl is not None and not pl["p"] else a
     if fn and fork:
-        dof = SS.blocks[fn[0]]["term"].get("target")
-        st = [i for i in ss_static if sfa.dominates(fn[0], i)]
-        sv = [i for i in sba.calls(r"state::File::save") if st and sfa.dominates(st[0], i)]
-        cm = [i for i in commits if sv and sfa.dominates(sv[0], i)]
-        ok = bool(st and sv and cm) and all(sfa.dominates(cm[0], f) for f in fork)
-    ctx.ob("R2.6", "%s|do-file-static-saved-committed" % SS.key, ok, where=SS.span, detail="from_name(do_path) -> set_static -> save -> commit -> fork" if ok else "the chosen .do is not recorded as a static source before the fork")
+        cm = [i for i in commits if sfa.dominates(fn[0], i) and all(sfa.dominates(i, f) for f in fork)]
+        # the record of the .do file: what the set_static calls behind from_name(do_path) act on
+        st = [i for i in ss_static if sfa.dominates(fn[0], i) or sba.path([fn[0]], [i]) is not None and any(sba.path([i], [c]) is not None for c in cm)]
+        dofs = {recv(i) for i in st} - {None}
+        gens = [(sw, t_t, f_t) for (sw, t_t, f_t, cbb) in sba.switches_on_call(r"state::File::is_generated") if recv(cbb) in dofs and sba.dominates(fn[0], sw)]
+        saves_ = sba.calls(r"state::File::save")
+        if cm and st:
+            c0 = cm[0]
+            if gens:
+                sw, t_t, f_t = gens[0]
+                p1 = sba.path([f_t], [c0], avoid=frozenset(st), incl=True)
+                sv = [i for i in saves_ if recv(i) in dofs]
+                p2 = all(sba.path([x], [c0], avoid=frozenset(sv)) is None for x in st)
+                ok = p1 is None and p2 and bool(sv)
+            else:
+                sv = [i for i in saves_ if sfa.dominates(st[0], i)]
+                ok = sfa.dominates(fn[0], st[0]) and bool(sv) and sfa.dominates(sv[0], c0)
+            for k, i in common.ordinal_keys([("set_static", i) for i in st]):
+                guarded = any(sba.edge_dominates((sw, f_t), i) for (sw, t_t, f_t) in gens)
+                ctx.ob("R2.9", "%s|%s|only-when-the-.do-is-not-a-target" % (SS.key, k), guarded, where=ctx.where(SS, i),
+                       detail="the .do file's record is marked static only when it is not generated" if guarded else
+                       "the chosen .do file is marked as a static source unconditionally: a .do file built by redo (x.do from x.do.do) loses is_generated and its dependencies; `redo-ifchange x.do x` then exits 0 with both stale")
+    ctx.ob("R2.6", "%s|do-file-static-saved-committed" % SS.key, ok, where=SS.span, detail="from_name(do_path) -> (not generated: set_static -> save) -> commit -> fork" if ok else "the chosen .do is not recorded as a static source before the fork")
 
 
 def _stmt_params(body, sql):
